@@ -171,6 +171,11 @@ fn build(base: u8, seed: u64) -> Container {
             doc.formats = vec![(164, "yyyy-mm-dd".into(), 1, false)];
             for s in &mut doc.sheets {
                 s.merges = vec![vec![((0, 0), (1, 1))]];
+                // one MULRK run starting in column A below the generated cells
+                let next_row = s.cells.iter().map(|c| c.row).max().map_or(0, |r| r.saturating_add(1).min(65_535));
+                if s.cells.iter().all(|c| c.row != next_row) {
+                    s.cells.push(b8::BCell { row: next_row, col: 0, ixfe: 0, rec: b8::BRec::MulRk(vec![(0, (7 << 2) | 2), (0, (9 << 2) | 2), (0, (150 << 2) | 3)]) });
+                }
             }
             Container { parts: vec![("Workbook".into(), b8::workbook_stream(&doc))], wrap: Wrap::Cfb(doc.cfb.clone()) }
         }
@@ -1275,6 +1280,9 @@ enum SweepKind {
     DropEnd { a: usize, b: usize },
     /// assembled compound file: field at `off`
     Cfb { off: usize, v: u8 },
+    /// binary part: record number `rec` made `delta` bytes longer (zero padding) or shorter, its
+    /// declared length adjusted so that the stream stays framed
+    Resize { rec: usize, delta: i8, biff12: bool },
 }
 
 #[derive(Clone, Copy)]
@@ -1333,6 +1341,27 @@ fn sweep_bytes(docs: &[Container], it: &SweepItem) -> Vec<u8> {
             out.extend_from_slice(&d[b..]);
             *d = out;
         }
+        SweepKind::Resize { rec, delta, biff12 } => {
+            let d = &mut parts[it.part].1;
+            let recs = if biff12 { biff12_records(d) } else { biff8_records(d) };
+            if let Some(&(rs, ps, pe)) = recs.get(rec) {
+                let old = pe - ps;
+                let new = (old as i64 + delta as i64).max(0) as usize;
+                let mut out = d[..rs].to_vec();
+                if biff12 {
+                    let id_len = ps - rs - varint_len(old);
+                    out.extend_from_slice(&d[rs..rs + id_len]);
+                    out.extend(varint(new));
+                } else {
+                    out.extend_from_slice(&d[rs..rs + 2]);
+                    out.extend_from_slice(&(new as u16).to_le_bytes());
+                }
+                out.extend_from_slice(&d[ps..ps + new.min(old)]);
+                out.resize(out.len() + new.saturating_sub(old), 0);
+                out.extend_from_slice(&d[pe..]);
+                *d = out;
+            }
+        }
         SweepKind::Cut { at } => parts[it.part].1.truncate(at),
         SweepKind::DropEnd { a, b } => {
             parts[it.part].1.drain(a..b);
@@ -1379,6 +1408,11 @@ fn boundary_sweep(ctx: &mut Ctx) {
             match part_class(name) {
                 cls @ (1 | 2) => {
                     let recs = if cls == 2 { biff12_records(data) } else { biff8_records(data) };
+                    for rec in 0..recs.len() {
+                        for delta in [-3i8, -2, -1, 1, 2, 3, 5] {
+                            items.push(SweepItem { doc: di, part: pi, kind: SweepKind::Resize { rec, delta, biff12: cls == 2 } });
+                        }
+                    }
                     for (_, ps, pe) in recs {
                         // fields sit near the start of a record; long tails are character data
                         for off in ps..pe.min(ps + 48) {
@@ -1443,7 +1477,14 @@ fn boundary_sweep(ctx: &mut Ctx) {
     }
     let total = items.len();
     let phase = (ctx.seed as usize) % STRIDE;
-    let chosen: Vec<SweepItem> = if ctx.quick() { items.into_iter().skip(phase).step_by(STRIDE).collect() } else { items };
+    // quick tier: every structural item (resized records, XML attributes / cuts / end tags, compound-file
+    // words) and every 4th field item
+    let chosen: Vec<SweepItem> = if ctx.quick() {
+        let (fields, rest): (Vec<SweepItem>, Vec<SweepItem>) = items.into_iter().partition(|i| matches!(i.kind, SweepKind::Field { .. }));
+        rest.into_iter().chain(fields.into_iter().skip(phase).step_by(STRIDE)).collect()
+    } else {
+        items
+    };
     let failures = std::sync::Mutex::new(std::collections::BTreeMap::<String, (Case, String)>::new());
     let tolerated = std::sync::atomic::AtomicU64::new(0);
     let completed = std::sync::atomic::AtomicU64::new(0);
@@ -1497,7 +1538,7 @@ fn boundary_sweep(ctx: &mut Ctx) {
         labels,
         vec![serde_json::json!({"documents": docs.len(), "stride": if ctx.quick() { STRIDE } else { 1 }, "phase": phase})],
         !ctx.quick(),
-        "deterministic enumeration: (field position near the start of each record) x (10 boundary values) for BIFF8/BIFF12 parts, attribute x menu / cut points / dropped end tags for XML parts, header + first FAT / directory / mini-FAT sector x 13 values for compound files; quick = every 4th item (phase = seed mod 4), thorough = all",
+        "deterministic enumeration: (field position near the start of each record) x (10 boundary values) for BIFF8/BIFF12 parts, attribute x menu / cut points / dropped end tags for XML parts, header + first FAT / directory / mini-FAT sector x 13 values for compound files; quick = all structural items and every 4th field item (phase = seed mod 4), thorough = all",
     );
 }
 
